@@ -448,3 +448,25 @@ Proof.
   - lra.
   - rewrite Rabs_right; lra.
 Qed.
+
+(* below safeTol the clamp of the width makes the kernel jump at the switch: widths <= safeTol are outside the
+   admissible domain of the C1 clauses (the property speaks of widths "over ten decades", the code's own guard is 1e-14) *)
+Lemma smin_jump_below_safeTol :
+  let e := safeTol / 2 in
+  smin e 0 e = 0 /\ forall d, 0 < d < e -> smin (e - d) 0 e <= - safeTol / 16.
+Proof.
+  intros e. pose proof safeTol_pos as Hp. assert (He : 0 < e) by (unfold e; lra).
+  split.
+  - rewrite smin_exact_outside. unfold Rmin; destruct (Rle_dec e 0); lra.
+    rewrite Rminus_0_r, Rabs_right; lra.
+  - intros d Hd. rewrite smin_in_band.
+    + assert (Hs : swidth e = safeTol). { unfold swidth. destruct (Rlt_dec safeTol e); [unfold e in *; lra|reflexivity]. }
+      rewrite Hs. rewrite Rminus_0_r. rewrite (Rabs_right (e - d)) by lra.
+      unfold Rmin. destruct (Rle_dec (e - d) 0); [lra|].
+      replace safeTol with (2 * e) by (unfold e; lra).
+      assert (e / 8 <= (2 * e - (e - d)) ^ 2 / (4 * (2 * e))).
+      { apply Rmult_le_reg_r with (8 * e); [lra|].
+        replace ((2 * e - (e - d)) ^ 2 / (4 * (2 * e)) * (8 * e)) with ((e + d) ^ 2) by (field; lra). nra. }
+      lra.
+    + rewrite Rminus_0_r, Rabs_right; lra.
+Qed.
